@@ -1,14 +1,17 @@
 #!/bin/bash
 # tools/mutant.sh <patch.diff> <ID> [tier]  — apply a seeded patch to a scratch
-# worktree of /repo HEAD, run the check against it, remove the worktree.
+# worktree of /repo HEAD, run the check against it (evidence and replays go to
+# a scratch directory), remove everything again.
 set -u
 P="$1"; ID="$2"; TIER="${3:-quick}"
 W=$(mktemp -d /tmp/mutwt.XXXXXX); rmdir "$W"
+O=$(mktemp -d /tmp/mutout.XXXXXX)
+cp /verif/known_findings.txt "$O/"
 git -C /repo worktree add -q --detach "$W" HEAD || exit 9
-if ! git -C "$W" apply "$P"; then echo "PATCH DOES NOT APPLY"; git -C /repo worktree remove --force "$W"; exit 9; fi
-OUT=$(VERIF_REPO="$W" VERIF_DIR_EVID=skip /verif/bin/check "$ID" "$TIER" 2>&1); RC=$?
-echo "$OUT" | grep -E "VIOLATION|verdict=|BUILD FAILED|INCONCLUSIVE|^violation" | head -8
+if ! git -C "$W" apply "$P"; then echo "PATCH DOES NOT APPLY"; git -C /repo worktree remove --force "$W"; rm -rf "$O"; exit 9; fi
+OUT=$(VERIF_REPO="$W" VERIF_OUT_DIR="$O" /verif/bin/check "$ID" "$TIER" 2>&1); RC=$?
+echo "$OUT" | grep -E "^violation|verdict=|BUILD FAILED|INCONCLUSIVE" | sort | uniq -c | sort -rn | head -${MUT_LINES:-6}
 echo "exit=$RC"
 git -C /repo worktree remove --force "$W"
-git -C /verif checkout -q -- evidence 2>/dev/null
+rm -rf "$O"
 exit $RC
